@@ -22,7 +22,11 @@ type recurTmpl struct {
 	// deepSource: the program load()s a source nested 10^6 deep (input class of
 	// finding C04-syntax-nesting-go-stack)
 	deepSource bool
-	src        string
+	// handlerReentry: an xpcall message handler raises an error inside a
+	// nested call made by the VM (input class of finding
+	// C04-message-handler-reentry)
+	handlerReentry bool
+	src            string
 }
 
 // metaRec builds "metamethod mm whose handler performs the same operation on
@@ -93,7 +97,7 @@ local t = setmetatable({}, {__tostring = function(t) error(t) end})
 local ok, err = pcall(error, t)
 local ok2, err2 = pcall(tostring, t)
 error(t)`},
-	{name: "close", src: `
+	{name: "close", vmMeta: true, src: `
 local function f(n)
   local x <close> = setmetatable({}, {__close = function() f(n + 1) end})
   return n
@@ -128,7 +132,14 @@ return ok, type(err)`},
 local function h(e) return select(2, xpcall(error, h, e)) end
 local ok, err = xpcall(error, h, "x")
 return ok, type(err)`},
-	{name: "xpcall-nested", src: `
+	{name: "xpcall-handler-error-in-metamethod", handlerReentry: true, src: `
+return xpcall(error, function(e)
+  local t = setmetatable({}, {__index = function() error("in index") end})
+  return t.x
+end, "x")`},
+	{name: "xpcall-handler-string-arith", handlerReentry: true, src: `
+return xpcall(error, function(e) return ("x" .. e) + 1 end, "x")`},
+	{name: "xpcall-nested", handlerReentry: true, src: `
 local function f(n) return xpcall(f, f, n + 1) end
 return pcall(f, 1)`},
 	{name: "pcall-nested", src: `
@@ -193,7 +204,7 @@ local function mk(n)
     coroutine.yield()
   end)
 end
-local c = mk(5000)
+local c = mk(1000)
 coroutine.resume(c)
 return coroutine.close(c)`},
 	{name: "lua-recursion-nontail", src: `
